@@ -24,6 +24,12 @@ Definition catch {A} (m:M A) (h:M A) : M A :=
               | (None, rn', g') => h rn' g'
               | r => r
               end.
+(* run cleanup when m throws, then keep throwing (a destructor that runs during stack unwinding) *)
+Definition on_throw {A} (m:M A) (cleanup:M unit) : M A :=
+  fun rn g => match m rn g with
+              | (None, rn', g') => let '(_, rn2, g2) := cleanup rn' g' in (None, rn2, g2)
+              | r => r
+              end.
 Definition get : M rnode := fun rn g => (Some rn, rn, g).
 Definition put (rn:rnode) : M unit := fun _ g => (Some tt, rn, g).
 Definition modify (f:rnode -> rnode) : M unit := fun rn g => (Some tt, f rn, g).
